@@ -34,6 +34,7 @@ using RoutineToken  = cabinet::Token;
 using RoutineEntry  = std::function<void(Scheduler&)>;
 
 #define ROUTINE_STACK_DEFAULT_SIZE  8192    //! 子协程默认栈大小
+#define ROUTINE_STACK_MIN_SIZE      8192    //! 子协程最小栈大小，create() 的 stack_size 小于该值时按该值分配
 
 //! 协程调度器
 class Scheduler {
